@@ -193,7 +193,10 @@ def tasks(tier, seed):
     for fi in range(len(MD_FORMULAS)):
         for (r, c) in itertools.product(range(3), range(len(MD_COLS))):
             for code_kind in ('default', 'custom'):
-                for entry in md_entries(tier, code_kind):
+                entries = md_entries(tier, code_kind)
+                if tier == 'quick' and code_kind == 'custom' and fi < 2:
+                    entries = entries + ['simulate']
+                for entry in entries:
                     t.append(dict(part='missing', formula=fi, row=r, col=c, code=code_kind, entry=entry))
     t.append(dict(part='sticky', fresh=True))
     # expected-error missing-data cases must be fresh; decided statically from the reference
@@ -629,8 +632,16 @@ def _missing(task, rec):
         return
     rec.case(key, (task['formula'], task['row'], task['col'], task['code'], entry, [round(v, 8) for v in got]), outcome=('returned', kind))
     if kind == 'error':
-        rec.violation(f'C12|missing-data-code-used-in-calculation|entry={entry}:code={task["code"]}',
-                      f'{R.show(term)}: {want}; cell = {code}, yet {entry} returned {got}', dict(task), observed=got)
+        import math as _m
+        offending = got[task['row']] if entry != 'biogeme' and len(got) > task['row'] else got[0]
+        if _m.isnan(offending):
+            # no number was produced for the observation, but no error either
+            rec.violation(f'C12|missing-data-read-yields-nan-instead-of-an-error|entry={entry}',
+                          f'{R.show(term)}: {want}; cell = {code}: {entry} returned {got} (NaN for the observation) instead of failing', dict(task),
+                          observed=got)
+        else:
+            rec.violation(f'C12|missing-data-code-used-in-calculation|entry={entry}:code={task["code"]}',
+                          f'{R.show(term)}: {want}; cell = {code}, yet {entry} returned {got}', dict(task), observed=got)
     elif len(got) != len(want) or any(not R.close(a, b, rel=1e-9) for a, b in zip(got, want)):
         rec.violation(f'C12|value-with-harmless-missing-code|entry={entry}:code={task["code"]}',
                       f'{R.show(term)} with cell (row {task["row"]}, {MD_COLS[task["col"]]}) = {code}: {got} expected {want}', dict(task),
